@@ -239,10 +239,11 @@ def jobs(tier):
     B(lambda: mk_axlup(16, 64, 16, tag="/garbage"))
     # ---- Wishbone2AXILite
     A(lambda: mk_wb2axl(8, 2, base=4, small=True))
-    A(lambda: mk_wb2axl(16, 3, base=0, small=True))
+    A(lambda: mk_wb2axl(16, 3, base=2, small=True))
     for pol in AXL_POL:
         B(lambda pol=pol: mk_wb2axl(32, 32, base=0x1000, pol=pol, p_err=0.1))
-    B(lambda: mk_wb2axl(64, 32, base=0, pol="pipeline2", p_err=0.1))
+    B(lambda: mk_wb2axl(64, 32, base=0x1000, pol="pipeline2", p_err=0.1))
+    B(lambda: mk_wb2axl(32, 16, base=0x30, addressing="byte", pol="accept-early", p_err=0.1))
     B(lambda: mk_wb2axl(32, 32, base=0x2000, tag="/garbage"))
     return J
 
@@ -318,7 +319,7 @@ def search(ctx, disagreements, proof_info):
 # finding probes (witnesses replayed on the real code with the property oracle armed)
 
 F_ERR = "C09-axil2wb-err-ignored"
-F_BASE = "C09-wb2axil-base-address-dw64"
+F_BASE = "C09-wb2axil-base-address-dw64"            # fixed 8039af6
 F_UPLANE = "C09-axil-upconv-lane-follows-address-lines"
 F_HANG = "C09-axil-downconv-write-hang"              # fixed f8f7de0
 F_UNAL = "C09-axil-downconv-unaligned-addr"          # fixed a1e11a3
